@@ -73,6 +73,14 @@ var (
 				s = append(s, textSeed{i, l})
 			}
 		}
+		for i := range caseDecoders {
+			for j, l := range initialismRunSeeds {
+				// every run meets the two Go-identifier decoders, a third of them the others
+				if i == 2 || i == 3 || j%3 == i%3 {
+					s = append(s, textSeed{i, l})
+				}
+			}
+		}
 		return s
 	}()
 
@@ -244,6 +252,23 @@ func cuePanicDocs() []string {
 	}
 	return []string{`x: "a"*18446744073709551615`, `x: "ab"*9223372036854775807`, `x: 'ab'*18446744073709551615`}
 }
+
+// initialismRunSeeds are all-caps runs of initialisms with a non-initialism
+// tail, bare and in camel / snake / kebab context.
+var initialismRunSeeds = func() []string {
+	var out []string
+	for _, unit := range []string{"ID", "UID", "UI", "HTTPS", "API", "UUID", "IDUIDUIHTTPHTTPSAPIURLUUID"} {
+		for _, k := range []int{10, 16, 24, 40} {
+			n := k
+			if len(unit) > 6 {
+				n = k / 5
+			}
+			run := strings.Repeat(unit, n)
+			out = append(out, run+"X", run+"Q", run+"Zz", run, "foo"+run+"X", "a_"+run+"X", "a-"+run+"Q")
+		}
+	}
+	return out
+}()
 
 func mkSeeds(nsel int, docs []string) []textSeed {
 	var s []textSeed
